@@ -58,6 +58,14 @@ fn fn_abstract(out: &mut String, f: &Option<Function>, c: char) {
 }
 
 fn outcome(bg: &str, c: char) -> String {
+    // a panic in the parser is data: the outcome "panic" matches no run of the specification
+    match std::panic::catch_unwind(|| outcome_inner(bg, c)) {
+        Ok(s) => s,
+        Err(_) => "\"out\":{\"f\":\"PANIC\",\"a\":[]},\"st\":{\"state\":\"PANIC\",\"params\":[[0]],\"inter\":-1},\"clean\":true".to_string(),
+    }
+}
+
+fn outcome_inner(bg: &str, c: char) -> String {
     let mut p = Parser::new();
     for b in bg.chars() {
         p.feed(b);
@@ -215,17 +223,30 @@ pub fn parser_streams(args: &Args, r: &mut Rng) -> i32 {
             line.push_str("{\"ev\":\"pf\",\"s\":");
             obs::str_cps(&mut line, &s);
             line.push_str(",\"outs\":[");
-            for (i, c) in s.chars().enumerate() {
-                if i > 0 {
-                    line.push(',');
+            let res = std::panic::catch_unwind(std::panic::AssertUnwindSafe(|| {
+                for (i, c) in s.chars().enumerate() {
+                    if i > 0 {
+                        line.push(',');
+                    }
+                    let o = p.feed(c);
+                    obs::function(&mut line, &o);
+                    chars += 1;
                 }
-                let o = p.feed(c);
-                obs::function(&mut line, &o);
-                chars += 1;
+                line.push_str("],\"st\":");
+                let clean = obs::parser_state(&mut line, &p);
+                let _ = write!(line, ",\"clean\":{}}}", clean);
+            }));
+            if res.is_err() {
+                // a panic is data: the rest of this episode is abandoned, TLC reports FAIL C01
+                let mut pl = String::from("{\"ev\":\"panic\",\"slot\":0,\"op\":\"parser\",\"msg\":\"parser panicked on ");
+                for c in s.chars() {
+                    let _ = write!(pl, "U+{:04X} ", c as u32);
+                }
+                pl.push_str("\"}");
+                writeln!(f, "{}", pl).unwrap();
+                events += 1;
+                break;
             }
-            line.push_str("],\"st\":");
-            let clean = obs::parser_state(&mut line, &p);
-            let _ = write!(line, ",\"clean\":{}}}", clean);
             writeln!(f, "{}", line).unwrap();
             events += 1;
         }
